@@ -15,7 +15,7 @@ import itertools
 from hypothesis import strategies as st
 
 from vlib.ref.c08_symbols import ALL_TYPES, DATA_TYPES, LOGIC_TYPES, ITEM_PHASES, EXEC_ORDER, BUILTIN_TYPES, \
-    REL_OPTIONS
+    REL_OPTIONS, STRICT_CONTEXTS, item_refs, value_refs, _program_refs
 
 NAMES = ['A', 'B', 'C', 'D', 'E', 'F', 'G']
 UNDEFINED = 'U'
@@ -28,6 +28,8 @@ LIT_INT = ['0', '1', '7', '12', '-1', '0b1', '1_0']
 ASSERT_TYPES = ['integer-matcher', 'line-matcher', 'file-matcher', 'files-matcher', 'files-condition', 'text-source',
                 'text-matcher', 'text-transformer']
 PROBES = ['p1', 'p2', 'p3']
+NESTED_PROBES = ['q1', 'q2', 'p1']  # programs inside text sources / transformers / matchers
+SHELL_OUTS = ['sh1', 'sh2']
 
 CANONICAL_ORDER = list(EXEC_ORDER)
 
@@ -195,23 +197,74 @@ def _ctx_table():
     c['tt-in-transformed'] = lambda x: setup(_def('text-matcher', 'Z', {'c': 'transformed', 't': _ref(x),
                                                                         'm': {'lit': 'true'}}))
     c['ts-in-equals'] = lambda x: setup(_def('text-matcher', 'Z', {'c': 'equals', 's': {'ref': x, 't': None}}))
+    # RICH-STRING forms, further instructions, programs inside other values
+    def ts_str(q, *frags):
+        return {'c': 'str', 's': {'q': q, 'f': list(frags)}, 't': None}
+
+    def symref(x, *args):
+        return {'c': 'symref', 'ref': x, 'a': list(args), 'in': None, 't': None}
+
+    def shell(o, x):
+        return {'c': 'shell', 'o': o, 's': S('v ', R(x), ' w', q='s'), 'a': [], 'in': None, 't': None}
+
+    c['str-heredoc'] = lambda x: setup(_def('string', 'Z', {'q': 'd', 'f': ['a ', R(x), '\n', "'", R(x), "' b"]}),
+                                       _show('Z'))
+    c['str-eol'] = lambda x: setup(_def('string', 'Z', {'q': 't', 'f': ['  a "', R(x), "' b  "]}), _show('Z'))
+    c['ts-heredoc'] = lambda x: setup({'k': 'file', 's': ts_str('d', R(x), '\n', 'x ', R(x))})
+    c['ts-eol'] = lambda x: setup({'k': 'file', 's': ts_str('t', '[', R(x), ']')})
+    c['arg-heredoc'] = lambda x: setup({'k': 'run', 'p': _probe('p2', [S('a'), {'q': 'd', 'f': [R(x)]}])})
+    c['arg-eol'] = lambda x: setup({'k': 'run', 'p': _probe('p2', [S('a'), {'q': 't', 'f': ['r  ', R(x)]}])})
+    c['fs-file-heredoc'] = lambda x: setup({'k': 'dir', 's': {'c': 'set', 'e': [
+        {'k': 'file', 'n': S('f1'), 's': ts_str('d', 'h ', R(x))}, {'k': 'file', 'n': S('f2'), 's': None}]}})
+    c['prog-stdin-heredoc'] = lambda x: setup({'k': 'run', 'p': _probe('p2', [S('a')], stdin=ts_str('d', R(x)))})
+    c['env-ts-whole'] = lambda x: setup({'k': 'env', 's': {'ref': x, 't': None}}, {'k': 'run', 'p': _probe('p2', [])})
+    c['env-str'] = lambda x: setup({'k': 'env', 's': ts_str('s', 'v', R(x))}, {'k': 'run', 'p': _probe('p2', [])})
+    c['stdin-ts'] = lambda x: ([{'k': 'stdin', 's': {'ref': x, 't': None}}], 'setup', _probe('act', []))
+    c['stdin-str'] = lambda x: ([{'k': 'stdin', 's': ts_str('n', 'v', R(x))}], 'setup', _probe('act', [S('a')]))
+    c['timeout-int'] = lambda x: setup({'k': 'timeout', 'i': S('100+', R(x))})
+    c['stdout-from-prog'] = lambda x: setup({'k': 'file', 's': {'c': 'pgm', 'p': symref(x, S('n')), 't': None}})
+    c['stdout-from-arg'] = lambda x: setup({'k': 'file', 's': {'c': 'pgm', 'p': _probe('q1', [S(R(x))]), 't': None}})
+    c['stdout-from-stdin'] = lambda x: setup({'k': 'file', 's': {'c': 'pgm', 't': None,
+                                                                 'p': _probe('q1', [], stdin={'ref': x, 't': None})}})
+    c['stdout-from-tt'] = lambda x: setup({'k': 'file', 's': {'c': 'pgm', 't': None,
+                                                              'p': _probe('q1', [], tt=_ref(x))}})
+    c['shell-cmd'] = lambda x: setup({'k': 'run', 'p': shell('sh1', x)})
+    c['bare-shell'] = lambda x: setup({'k': 'run', 'p': shell('sh2', x), 'bare': True})
+    c['bare-probe-arg'] = lambda x: setup({'k': 'run', 'p': _probe('p2', [S('a'), S(R(x))]), 'bare': True})
+    c['act-shell'] = lambda x: ([], 'setup', shell('sh1', x))
+    c['act-arg-heredoc'] = lambda x: ([], 'setup', _probe('act', [S('a'), {'q': 'd', 'f': ['h ', R(x)]}]))
+    c['shell-prog-def'] = lambda x: setup(_def('program', 'Z', shell('sh1', x)), {'k': 'run', 'p': symref('Z')})
+    c['tm-run-prog'] = lambda x: setup(_def('text-matcher', 'Z', {'c': 'run', 'p': symref(x, S('m'))}))
+    c['tm-run-arg'] = lambda x: (
+        [_def('text-matcher', 'Z', {'c': 'run', 'p': _probe('q1', [S(R(x))])}),
+         {'k': 'assert', 't': 'text-matcher', 'e': _ref('Z')}], 'assert', None)
+    c['tt-run-prog'] = lambda x: setup(_def('text-transformer', 'Z', {'c': 'run', 'p': symref(x, S('t'))}),
+                                       {'k': 'file', 's': {'c': 'str', 's': S('txt', q='s'), 't': _ref('Z')}})
+    c['tt-run-arg'] = lambda x: setup(_def('text-transformer', 'Z', {'c': 'run', 'p': _probe('q1', [S(R(x))])}),
+                                      {'k': 'file', 's': {'c': 'str', 's': S('txt', q='s'), 't': _ref('Z')}})
+    c['fm-run-prog'] = lambda x: setup(_def('file-matcher', 'Z', {'c': 'run', 'p': symref(x)}))
+    c['fm-run-arg'] = lambda x: setup(_def('file-matcher', 'Z', {'c': 'run', 'p': _probe('q1', [S('a', R(x), q='s')])}))
     return c
 
 
 CONTEXTS = _ctx_table()
-CHAINS = ['0', 's1', 's2', 't1', 't2']
+CHAINS = ['0', 's1', 's2', 't1', 't2', 'm1', 'm2']  # m: strings with two references, the second one leads to X0
 
 
 def matrix_case(ctx, t, chain):
     """def X0 of type t; chain of wrappers; context uses the last one."""
     items = {p: [] for p in ITEM_PHASES}
+    if chain[0] == 'm':
+        items['setup'].append(_def('string', 'S0', S('s')))
     items['setup'].append(_def(t, 'X0', literal_value(t)))
     last = 'X0'
     if chain != '0':
         mode, n = chain[0], int(chain[1])
         for i in range(1, n + 1):
             name = 'X%d' % i
-            if mode == 's':
+            if mode == 'm':
+                items['setup'].append(_def('string', name, S(R('S0'), R(last), q='s' if i % 2 else 'n')))
+            elif mode == 's':
                 items['setup'].append(_def('string', name, S(R(last), q='s' if i % 2 else 'n')))
             else:
                 items['setup'].append(_def(t, name, same_type_wrapper(t, last)))
@@ -225,7 +278,7 @@ def matrix_cases(tier):
     for ctx in sorted(CONTEXTS):
         for t in ALL_TYPES:
             for chain in CHAINS:
-                if chain[0] == 's' and t not in DATA_TYPES:
+                if chain[0] in 'sm' and t not in DATA_TYPES:
                     continue  # a string cannot be built from a logic value: that is cell (str-soft, t) itself
                 yield matrix_case(ctx, t, chain)
 
@@ -325,7 +378,25 @@ def _pick(draw, env, types, p=0.6, pure=False, intish=False, user_only=False):
     return None
 
 
-def _g_str(draw, env, types=DATA_TYPES, lits=LIT, max_frags=3, p_ref=0.55, pure=False, allow_hard=True):
+def _g_str(draw, env, types=DATA_TYPES, lits=LIT, max_frags=3, p_ref=0.55, pure=False, allow_hard=True,
+           rich=False):
+    """rich: the position takes a RICH-STRING and is the last thing of its line: `:> text` and here-documents too"""
+    form = draw(st.integers(0, 9)) if rich else 9
+    if form <= 1:
+        # here-document: 1-3 lines
+        frags = []
+        used = []
+        for i in range(draw(st.integers(1, 3))):
+            if i:
+                frags.append('\n')
+            for _ in range(draw(st.integers(0, 2))):
+                x = _pick(draw, env, types, p_ref, pure=pure)
+                if x is not None:
+                    frags.append(R(x))
+                    used.append(x)
+                else:
+                    frags.append(draw(st.sampled_from(lits + [' # ', '  ', '-x'])))
+        return {'q': 'd', 'f': frags}, used
     n = draw(st.integers(1, max_frags))
     frags = []
     used = []
@@ -336,6 +407,10 @@ def _g_str(draw, env, types=DATA_TYPES, lits=LIT, max_frags=3, p_ref=0.55, pure=
             used.append(x)
         else:
             frags.append(draw(st.sampled_from(lits)))
+    if form <= 3:
+        if draw(st.booleans()):
+            frags.insert(draw(st.integers(0, len(frags))), draw(st.sampled_from([' # ', ' -x ', '  '])))
+        return {'q': 't', 'f': frags}, used
     q = draw(st.sampled_from(['n', 'n', 's', 's', 's', 'h'] if allow_hard else ['n', 's', 's']))
     return {'q': q, 'f': frags}, (used if q != 'h' else [])
 
@@ -389,18 +464,26 @@ def _g_path(draw, env):
     return {'rel': None, 'name': S(*tail(draw(st.sampled_from(LIT_WORD))))}, used
 
 
-def _g_ts(draw, env, depth):
+def _g_ts(draw, env, depth, eol=False):
+    """eol: the text source is the last thing of its instruction line(s): RICH-STRING forms and -stdout-from PROGRAM
+    (PGM-AND-ARGS runs to END-OF-LINE) can be used."""
     used = []
+    if eol and depth <= 2 and draw(st.integers(0, 7)) == 0:
+        p, u = _g_program(draw, env, depth + 1, allow_extras=depth == 0, nested=True)
+        return {'c': 'pgm', 'p': p, 't': None}, u
     x = _pick(draw, env, ['text-source', 'string'], 0.45)
     if x is not None:
         used.append(x)
         ts = {'ref': x, 't': None}
     else:
-        s, u = _g_str(draw, env, allow_hard=False)
+        s, u = _g_str(draw, env, allow_hard=False, rich=eol)
         used.extend(u)
-        if len(s['f']) == 1 and not isinstance(s['f'][0], str) and env.sym[s['f'][0]['ref']]['t'] != 'string':
+        if (s['q'] == 'n' and len(s['f']) == 1 and not isinstance(s['f'][0], str)
+                and env.sym[s['f'][0]['ref']]['t'] != 'string'):
             s['q'] = 's'  # a naked token that is one reference is the SYMBOL-REFERENCE form (text-source or string)
         ts = {'c': 'str', 's': s, 't': None}
+        if s['q'] in ('t', 'd'):
+            return ts, used  # nothing can follow on the line
     if draw(st.integers(0, 3)) == 0:
         tt, u = _g_expr(draw, env, 'text-transformer', depth + 1)
         ts['t'] = tt
@@ -408,21 +491,34 @@ def _g_ts(draw, env, depth):
     return ts, used
 
 
-def _g_program(draw, env, depth, allow_extras=True):
+def _g_program(draw, env, depth, allow_extras=True, nested=False):
     used = []
     x = _pick(draw, env, ['program'], 0.6)
-    args, u = _g_list(draw, env)
-    used.extend(u)
-    if x is not None:
-        used.append(x)
-        p = {'c': 'symref', 'ref': x, 'a': args, 'in': None, 't': None}
-    else:
-        p = {'c': 'probe', 'o': draw(st.sampled_from(PROBES)), 'a': args, 'in': None, 't': None}
-    if allow_extras and draw(st.integers(0, 2)) == 0:
-        p['in'], u = _g_ts(draw, env, depth + 1)
+    if x is None and draw(st.integers(0, 7)) == 0:
+        s, u = _g_str(draw, env, lits=[l for l in LIT if l], allow_hard=False)
+        s['q'] = 's'  # SHELL-COMMAND-LINE: the rest of the line is one string; the text goes between double quotes
+        p = {'c': 'shell', 'o': draw(st.sampled_from(SHELL_OUTS)), 's': s, 'a': [], 'in': None, 't': None}
         used.extend(u)
+    else:
+        args, u = _g_list(draw, env)
+        used.extend(u)
+        if draw(st.integers(0, 5)) == 0:
+            # "If a RICH-STRING that spans whole lines is used, it will be the last element in the list"
+            s, u = _g_str(draw, env, rich=True)
+            args.append(s)
+            used.extend(u)
+        if x is not None:
+            used.append(x)
+            p = {'c': 'symref', 'ref': x, 'a': args, 'in': None, 't': None}
+        else:
+            p = {'c': 'probe', 'o': draw(st.sampled_from(NESTED_PROBES if nested else PROBES)), 'a': args,
+                 'in': None, 't': None}
     if allow_extras and draw(st.integers(0, 4)) == 0:
         p['t'], u = _g_expr(draw, env, 'text-transformer', depth + 1)
+        used.extend(u)
+    if allow_extras and draw(st.integers(0, 2)) == 0:
+        # with a -transformed-by line the text source is put inside parentheses: no end-of-line forms then
+        p['in'], u = _g_ts(draw, env, depth + 1, eol=p['t'] is None)
         used.extend(u)
     return p, used
 
@@ -443,7 +539,7 @@ def _g_fs(draw, env, depth):
         if draw(st.booleans()) or depth >= 2:
             ts = None
             if draw(st.booleans()):
-                ts, u = _g_ts(draw, env, depth + 1)
+                ts, u = _g_ts(draw, env, depth + 1, eol=True)
                 used.extend(u)
             ents.append({'k': 'file', 'n': name, 's': ts})
         else:
@@ -488,7 +584,7 @@ def _g_int_str(draw, env):
 def _g_expr(draw, env, t, depth=0):
     """-> (expression of logic type t, [names used])"""
     if t == 'text-source':
-        return _g_ts(draw, env, depth)
+        return _g_ts(draw, env, depth, eol=depth == 0)
     if t == 'program':
         return _g_program(draw, env, depth)
     if t == 'files-source':
@@ -575,18 +671,22 @@ def _g_expr(draw, env, t, depth=0):
     raise ValueError((t, c))
 
 
-_TYPE_WEIGHTS = (['string'] * 6 + ['list'] * 4 + ['path'] * 4 + ['text-source'] * 3 + ['program'] * 3 +
-                 ['text-transformer'] * 2 + ['integer-matcher'] * 2 +
-                 ['line-matcher', 'file-matcher', 'files-matcher', 'files-condition', 'files-source', 'text-matcher'])
+_TYPE_WEIGHTS = (['string'] * 7 + ['list'] * 4 + ['path'] * 4 + ['text-source'] * 3 + ['program'] * 3 +
+                 ['text-transformer'] * 3 + ['integer-matcher'] * 3 + ['files-source'] * 2 + ['text-matcher'] * 2 +
+                 ['line-matcher'] * 2 + ['file-matcher'] * 2 + ['files-matcher'] * 2 + ['files-condition'] * 2)
 
 
 def _g_value(draw, env, t):
     if t == 'string':
-        return _g_str(draw, env)
+        return _g_str(draw, env, rich=True)
     if t == 'list':
         return _g_list(draw, env)
     if t == 'path':
         return _g_path(draw, env)
+    if t in ('text-matcher', 'text-transformer', 'file-matcher') and draw(st.integers(0, 4)) == 0:
+        # `run PROGRAM` - PGM-AND-ARGS runs to END-OF-LINE: generated as the whole value only
+        p, u = _g_program(draw, env, 1, nested=True)
+        return {'c': 'run', 'p': p}, u
     return _g_expr(draw, env, t, 0)
 
 
@@ -602,15 +702,23 @@ def _walk_refs(node, out):
             _walk_refs(x, out)
 
 
-FAULTS = [None, None, None, None, None, None, 'def-later', 'def-later', 'use-earlier', 'dup', 'builtin-name',
-          'retarget', 'retarget-type', 'retarget-type', 'undefined', 'drop-def', 'act-late', 'move-item', 'move-item']
+FAULTS = [None, None, None, None, None, None, None, 'def-later', 'def-later', 'use-earlier', 'dup', 'builtin-name',
+          'retarget', 'retarget-type', 'retarget-type', 'undefined', 'drop-def', 'act-late', 'move-item', 'move-item',
+          'impurify', 'impurify']
+IMPURE_NAME = 'L'
 
 
 @st.composite
 def programs(draw):
     # drawn first: the distribution of late draws of a large example is skewed towards the first alternative
     fault = draw(st.sampled_from(FAULTS))
-    order = draw(st.permutations(EXEC_ORDER))
+    order = list(draw(st.permutations(EXEC_ORDER)))
+    cuts = {}
+    if draw(st.integers(0, 2)) == 0:
+        # a phase may be written in several pieces: its contents are the pieces in file order
+        for ph in draw(st.lists(st.sampled_from(ITEM_PHASES), min_size=1, max_size=2)):
+            order.insert(draw(st.integers(0, len(order))), ph)
+            cuts.setdefault(ph, []).append(draw(st.integers(0, 5)))
     env = _Env()
     items = {p: [] for p in ITEM_PHASES}
     n_items = draw(st.integers(2, 8))
@@ -626,6 +734,9 @@ def programs(draw):
         p, _u = _g_program(draw, env, 0, allow_extras=False)
         if p['c'] == 'probe':
             p['o'] = 'act'
+        if p['a'] and p['a'][-1]['q'] == 'd':
+            # the lines of [act] belong to the actor (empty lines ...): a here-document there is C10's matter
+            p['a'][-1] = {'q': 't', 'f': [f for f in p['a'][-1]['f'] if f != '\n']}
         return p
 
     for _ in range(n_items):
@@ -639,7 +750,10 @@ def programs(draw):
         if kind == 'def' and free:
             t = draw(st.sampled_from(_TYPE_WEIGHTS))
             name = free.pop(0)
-            v, used = _g_value(draw, env, t)
+            if t == 'string' and draw(st.integers(0, 5)) == 0:
+                v, used = S(draw(st.sampled_from(['0', '1', '7', '12']))), []  # usable in INTEGER contexts
+            else:
+                v, used = _g_value(draw, env, t)
             if v is None:
                 continue
             items[phase].append(_def(t, name, v))
@@ -652,14 +766,27 @@ def programs(draw):
                           and len(lits) + len(refs) == 1)
             env.sym[name] = {'t': t, 'pure': pure if t == 'string' else False, 'int': intish}
         else:
-            kinds = ['file', 'file', 'file', 'dir']
+            kinds = ['file', 'file', 'file', 'dir', 'env', 'timeout']
             if n_run < 2:
-                kinds.append('run')
+                kinds += ['run', 'run']
             if phase == 'assert':
-                kinds += ['assert', 'assert']
+                kinds += ['assert', 'assert', 'assert']
+            if phase == 'setup' and not any(it['k'] == 'stdin' for it in items['setup']):
+                kinds.append('stdin')
             uk = draw(st.sampled_from(kinds))
-            if uk == 'file':
-                ts, _u = _g_ts(draw, env, 0)
+            if uk == 'env':
+                ts, _u = _g_ts(draw, env, 0, eol=True)
+                items[phase].append({'k': 'env', 's': ts})
+            elif uk == 'stdin':
+                ts, _u = _g_ts(draw, env, 0, eol=True)
+                items[phase].append({'k': 'stdin', 's': ts})
+            elif uk == 'timeout':
+                s_, _u = _g_int_str(draw, env)
+                # a timeout of 100 s and more: never reached
+                items[phase].append({'k': 'timeout', 'i': {'q': 's' if s_['q'] == 's' else 'n',
+                                                            'f': ['100+'] + s_['f']}})
+            elif uk == 'file':
+                ts, _u = _g_ts(draw, env, 0, eol=True)
                 items[phase].append({'k': 'file', 's': ts})
             elif uk == 'dir':
                 fs, _u = _g_fs(draw, env, 0)
@@ -667,7 +794,7 @@ def programs(draw):
             elif uk == 'run':
                 n_run += 1
                 p, _u = _g_program(draw, env, 0)
-                items[phase].append({'k': 'run', 'p': p})
+                items[phase].append({'k': 'run', 'p': p, 'bare': draw(st.integers(0, 2)) == 0})
             else:
                 have = [t_ for t_ in ASSERT_TYPES if env.names([t_], user_only=True)]
                 t = draw(st.sampled_from(have if (have and draw(st.integers(0, 3)) > 0) else ASSERT_TYPES))
@@ -678,6 +805,8 @@ def programs(draw):
     if not act_done:
         act = make_act()
     case = {'order': list(order), 'act': act, 'items': items}
+    if cuts:
+        case['cuts'] = {ph: sorted(c) for ph, c in sorted(cuts.items())}
     if fault is not None:
         case = _apply_fault(draw, case, fault, env)
     return case
@@ -746,6 +875,40 @@ def _apply_fault(draw, case, fault, env):
                 other = [n for n in names if n in env.sym and env.sym[n]['t'] != cur and not env.sym[n].get('builtin')]
                 names = other or names
             node['ref'] = draw(st.sampled_from(names))
+    elif fault == 'impurify':
+        # a string that a "strings only" context depends on (directly or through other strings) gets a reference to
+        # a list or a path: the type check has to follow the chain
+        by_name = {items[ph][i]['n']: items[ph][i] for ph, i in defs}
+        todo = [name for ph, i in flat for name, ctx in item_refs(items[ph][i]) if ctx in STRICT_CONTEXTS]
+        if case['act'] is not None:
+            todo += [name for name, ctx in _program_refs(case['act']) if ctx in STRICT_CONTEXTS]
+        closure = []
+        while todo:
+            n = todo.pop()
+            d = by_name.get(n)
+            if n in closure or d is None or d['t'] != 'string':
+                continue
+            closure.append(n)
+            todo.extend(r for r, _ in value_refs('string', d['v']))
+        cands = sorted(n for n in closure if by_name[n]['v']['q'] != 'h')
+        if not cands:
+            # no "strings only" context depends on a string: add one at the very end
+            cands = sorted(n for n, d in by_name.items() if d['t'] == 'string' and d['v']['q'] != 'h')
+            if not cands:
+                return case
+            cands = [draw(st.sampled_from(cands))]
+            use = draw(st.sampled_from(['pathcomp', 'fname', 'int']))
+            if use == 'pathcomp':
+                it = _def('path', IMPURE_NAME + '2', {'rel': 'tmp', 'name': S('n/', R(cands[0]))})
+            elif use == 'fname':
+                it = {'k': 'dir', 's': {'c': 'set', 'e': [{'k': 'file', 'n': S('f1', R(cands[0])), 's': None}]}}
+            else:
+                it = {'k': 'timeout', 'i': S('100+', R(cands[0]))}
+            items['cleanup'].append(it)
+        target = by_name[draw(st.sampled_from(cands))]
+        kind = draw(st.sampled_from(['list', 'list', 'path']))
+        items['setup'].insert(0, _def(kind, IMPURE_NAME, literal_value(kind)))
+        target['v']['f'].insert(draw(st.integers(0, len(target['v']['f']))), R(IMPURE_NAME))
     elif fault == 'drop-def':
         if not defs:
             return case
